@@ -22,7 +22,7 @@ import asyncstdlib as a  # noqa: E402
 
 class Tool:
     def __init__(self, name, kind, nsrc, make_a, make_s, roles=(), optional_roles=(),
-                 profiles=("item", "truthy"), infinite=False, callsrc=False, outer=False,
+                 profiles=("item", "truthy", "unprintable"), infinite=False, callsrc=False, outer=False,
                  multi_out=False, window=0, streaming=True):
         self.name = name
         self.kind = kind  # "iter" | "agg"
